@@ -177,7 +177,7 @@ def set_names(case):
 # --------------------------------------------------------------------------
 # implementation side
 # --------------------------------------------------------------------------
-def build(case):
+def build(case, named_subset=True):
     from lymph import models
     g = gen.graph_dict(case["graph"])
     tri = case["graph"]["base"] == 3
@@ -203,7 +203,7 @@ def build(case):
     # set_params / get_params must not depend on a declared named_params subset (only set_named_params does):
     # a deterministic third of the models declares a strict subset (the D18 regression: Midline located midext_prob
     # through get_num_dims())
-    if cls != "HPVUnilateral":
+    if named_subset and cls != "HPVUnilateral":
         import hashlib
         import json as _json
         import random as _random
